@@ -272,7 +272,7 @@ SHAPES = [(2, 2), (3, 2), (2, 1), (3, 3), (2, 3), (4, 2), (1, 1), (3, 1), (2, 6)
 
 
 def standard_run(pid, tier, profiles, nquick, nthorough, steps=(18, 26), directed_jobs=(), scripts=(), mc_steps=(4, 5),
-                 rule="", assumptions=(), count_event=None, sim=True, shapes=SHAPES):
+                 rule="", assumptions=(), count_event=None, sim=True, shapes=SHAPES, extra=None):
     """TLC on the model (exhaustive + scripted counterexamples + simulation), then seeded histories on the binary"""
     v = vlib.Verdict(pid, tier, "model_checking")
     vlib.build("hooks"); vlib.build_shim()
@@ -371,6 +371,8 @@ def standard_run(pid, tier, profiles, nquick, nthorough, steps=(18, 26), directe
                                                             "".join(" %s=%s" % kv for kv in sorted(s["conf"].items()) if kv[0] not in ("nd", "np", "copies")))
                                              for s in scs)),
                 "rule": rule})
+    if extra:
+        extra(v, cov)           # further checks of the property on real arrays that need no trace (frame conditions)
     return v.finish(cov, assumptions=list(assumptions) + [
         "hash and parity abstraction of Array.tla (a collision of random 1 KiB blocks cannot repeat: violations are re-recorded with fresh data before being reported)",
         "inode-less scan (no usable UUID in the sandbox), forced alphabetical scan order, sequential disk scan"])
